@@ -49,7 +49,7 @@ PROPS = {
  },
  "C05": {
   "module": "Zog.Props.C05",
-  "theorems": COMMON + [P + "C05." + t for t in ["catch_no_issue", "catch_dest", "catch_keeps_good_value", "catch_confined_spec", "catch_confined", "engine_catch_no_issue"]],
+  "theorems": COMMON + [P + "C05." + t for t in ["catch_no_issue", "catch_dest", "catch_keeps_good_value", "catch_confined_spec", "catch_confined", "engine_catch_no_issue", "recycled_context_has_no_catch_state"]],
   "streams": [eng(3000, 150000), eng(2000, 100000, "catch")],
   "trusted_base": ENGINE_TB, "assumptions": ENGINE_ASSUME,
  },
